@@ -117,3 +117,9 @@ add("C15", "exploration", "exhaustive enumeration of a cable geometry/parameter 
     "with all three schemes, and steady state under constant current against I/(gA) for the unit constants.",
     "A finite ladder is evidence of the limit only; order windows +-0.3 (space) / +-0.1 (time) on the last two rungs and an absolute accuracy bound at the finest rung.",
     "DESIGN.md §7 C15")
+
+add("C11", "model_checking", "exhaustive enumeration of selection chains (transition sequences over views: level steps x index forms x scope modes, loc, select, group/channel/synapse-type attributes, edge) on real modules against a set-comprehension reference; every mutator applied through every small view with a snapshot diff",
+    "Part A: every chain up to the hierarchy depth over tiered step alphabets (quick 6.9k, thorough 81k chains) on four modules; node ids in order, dense local ranks, edges with both ends in view, "
+    "refusal iff the reference set is empty, lazy [] and iteration agree. Part B: 13 mutators through every depth<=2 view on a fresh deepcopy, canonical snapshot diff confined to the view's rows.",
+    "Weaker readings (loc on a boundary, masks only where unambiguous, [] / iteration raising on a non-level view is a refusal); modules up to 2 cells / 5 branches / 9 compartments.",
+    "DESIGN.md §7 C11")
